@@ -113,6 +113,11 @@ StepVerdict(e, pre, post) ==
                    ELSE IF out \in {"undef", "notimpl"} THEN <<>>
                    ELSE IF out = "completed" /\ StateDiffN(r.nop, post, r, Len(pre.mem.w)) = <<>> /\ osys = <<>> THEN <<>>
                    ELSE <<"nop-on-condfail">>
+      \* accepted generic coprocessor instructions must reach the (not implemented) coprocessor hooks
+      nimpl == IF host THEN <<>>
+               ELSE IF r.out = "notimpl:coproc" /\ out # "notimpl" THEN <<"outcome">>
+               ELSE IF r.out = "notimpl:coproc-mem" /\ out \notin {"notimpl", "dabort"} THEN <<"outcome">>
+               ELSE <<>>
       exact == IF ~r.exact \/ host \/ ~RegsTypeOK(post) THEN <<>>
                ELSE (IF out # r.out THEN <<"outcome">> ELSE <<>>) \o StateDiffN(r.s, post, r, Len(pre.mem.w)) \o
                     (IF osys # <<>> THEN <<"sys.other">> ELSE <<>>)
@@ -125,7 +130,7 @@ StepVerdict(e, pre, post) ==
                   IN [k \in 1..Len(regs) |-> <<regs[k], r.s.R[regs[k]]>>] \o
                      [k \in 1..Len(cells) |-> <<"mem", cells[k][1] - 1, cells[k][2], DevByte(r.s.mem, cells[k][1], cells[k][2])>>] \o
                      <<<<"out", r.out>>, <<"cpsr", r.s.cpsr>>>>
-  IN [id |-> e.id, v |-> env \o nopclause \o exact, path |-> r.path, why |-> why]
+  IN [id |-> e.id, v |-> env \o nopclause \o nimpl \o exact, path |-> r.path, why |-> why]
 
 \* exception entry actions (C11): the implementation's take_*_exception() called directly
 ExcVerdict(e, pre, post) ==
